@@ -1050,7 +1050,7 @@ def _listing(w):
     if "listonly" not in params:
         return None
     lonly = F.sym("listonly")
-    want = ("atom", repr(lonly), lonly)
+    want = C.atom(lonly)
     rets = [r for r in w.returns if isinstance(r[0], tuple) and len(r[0]) == 4 and not all(_rat(x) and C.sym_name(x) == "None" for x in r[0])]
     lst = [r for r in rets if _guard_equiv(_loop_guard(r[1]), want) is True]
     return lst[0] if len(lst) == 1 else None
@@ -1196,7 +1196,7 @@ def r5_listing_equals_read(ctx):
             continue
         none = F.sym("None")
         real = [r for r in rets if not all(_rat(x) and x.equals(none) for x in r[0])]
-        want_l = ("atom", repr(lonly), lonly)
+        want_l = C.atom(lonly)
         lst = [r for r in real if _guard_equiv(_loop_guard(r[1]), want_l) is True]
         full = [r for r in real if not any(r is x for x in lst)]
         bound = w.bound.get(id(rf), {})
@@ -1235,7 +1235,7 @@ def r5_listing_equals_read(ctx):
         if ok:
             # skip <=> listonly or (patternlist and name not in patternlist)   (the skipper may be called on several paths)
             inn = C.canon_tests(F.fn("cmp:In", name, plist))
-            want = ("or", [want_l, ("and", [("atom", repr(plist), plist), ("not", ("atom", repr(inn), inn))])])
+            want = ("or", [want_l, ("and", [C.atom(plist), ("not", C.atom(inn))])])
             try:
                 got = ("or", [C.guard_form(_loop_guard(e[4])) for e in skips])
                 ok = C.bool_equiv(got, want)
@@ -1266,7 +1266,7 @@ def r5_listing_equals_read(ctx):
                 brk = _break_guards(lp)
                 res = e[8]
                 nm = F.fn("idx", res, F.const(0)) if _rat(res) else None
-                ok = len(brk) == 1 and nm is not None and _guard_equiv(brk[0], ("not", ("atom", repr(nm), nm))) is True and C.same(lp.test, F.const(1))
+                ok = len(brk) == 1 and nm is not None and _guard_equiv(brk[0], ("not", C.atom(nm))) is True and C.same(lp.test, F.const(1))
             if ok and q == "dir":
                 ok = _rat(e[3].get("listonly")) and (C.sym_name(e[3]["listonly"]) == "True" or e[3]["listonly"].equals(F.const(1)))
         ctx.check(ok, f"{q}: iterates the same loader (ascii or binary by the detected format) until it reports end of file", w.fn)
